@@ -151,8 +151,8 @@ def run(rep, tier, replay):
         t0 = time.time()
         if kind == "pipe":
             with open(src, "rb") as fin:
-                p = subprocess.Popen([exe] + args, stdin=fin, stdout=subprocess.PIPE, stderr=subprocess.PIPE,
-                                     restore_signals=not ign, start_new_session=True)
+                p = subprocess.Popen(vlib.launch_prefix(ign) + [exe] + args, stdin=fin, stdout=subprocess.PIPE, stderr=subprocess.PIPE,
+                                     start_new_session=True)
                 got = b""
                 while len(got) < arg:
                     c = p.stdout.read(arg - len(got))
@@ -173,13 +173,12 @@ def run(rep, tier, replay):
             return job, vlib.run([exe] + args, stdin_file=src, stdout_file="/dev/full", timeout=60, ignore_pipe=ign)
         if kind == "fsize":
             out = os.path.join(d, "lim_%s_%d" % (name, ign))
-            r = vlib.run([exe] + args, stdin_file=src, stdout_file=out, timeout=60, ignore_pipe=ign,
-                         preexec=lambda: resource.setrlimit(resource.RLIMIT_FSIZE, (arg, arg)))
+            r = vlib.run([exe] + args, stdin_file=src, stdout_file=out, timeout=60, ignore_pipe=ign, fsize=arg)
             os.unlink(out)
             return job, r
         fd = os.open(d, os.O_RDONLY)
         try:
-            p = subprocess.Popen([exe] + args, stdin=fd, stdout=subprocess.PIPE, stderr=subprocess.PIPE, start_new_session=True)
+            p = subprocess.Popen(vlib.launch_prefix() + [exe] + args, stdin=fd, stdout=subprocess.PIPE, stderr=subprocess.PIPE, start_new_session=True)
             try:
                 out, err = p.communicate(timeout=60)
                 to = False
